@@ -28,7 +28,7 @@ def queries(tier):
     for (o, p) in pairs:
         k1, k2 = (3, 3) if tier == 'quick' else (3, 3)
         qs.append(Q('fine.%s-preempted-by-%s' % (OPN[o], OPN[p]), 'c11', 'c11_qs.c', 'harness_fine2',
-                    defs={'NA': 3, 'NON': 2, 'NB': 1, 'K1': k1, 'K2': k2, 'OUT_OP': o, 'PRE_OP': p, 'FINE2': 1, 'IR2C_EVENTS': 1, 'IR2C_NO_ATOMIC_SECTIONS': 1},
+                    defs={'NA': 3, 'NON': 2, 'NB': 2 if (o, p) == (1, 1) else 1, 'K1': k1, 'K2': k2, 'OUT_OP': o, 'PRE_OP': p, 'FINE2': 1, 'IR2C_EVENTS': 1, 'IR2C_NO_ATOMIC_SECTIONS': 1},
                     unwind=6, checks='std', inline_witness=True, witness='any', ignore=r'^agent_(await|barrier)\.unwind\.0$',
                     unwind_kind=[(r'^agent_await$', r'other', 3), (r'^agent_barrier$', r'other', 6), (r'^agent_run$', r'other', 3)],
                     recursion=[(r'quiescent_state|online|offline|^agent_|^op_do$|^do_qs$|^do_run$|^maybe_preempt$|^ir2c_event', 2)],
